@@ -134,14 +134,17 @@ ApplyLive(st, op, a) ==
       [] op = "into_iter"  -> Mk("gone", << >>, [kind |-> "into_iter", items |-> Flat(g), f |-> 0, b |-> 0],
                                  st.held, Drain(c * r))
       [] op = "drop"       -> Mk("gone", << >>, NoHandle, st.held, Unit)
+      \* C12: an iterator or view (types without destructor) is created, a.taken items are consumed, and it is
+      \* leaked with mem::forget: the array is exactly as before
+      [] op = "leak_borrow" -> Same(st, Unit)
 
 LiveOps == {"insert_row", "push_row", "insert_col", "push_col", "remove_row", "pop_row", "remove_col", "pop_col",
             "clear", "swap_dimensions", "reserve", "reserve_exact", "shrink_to_fit", "fill", "set", "swap",
             "swap_rows", "swap_cols", "translate", "flip_rows", "flip_cols", "sort_by_row", "sort_by_col",
-            "clone", "from_view", "into_vec", "into_box", "into_iter", "drop"}
+            "clone", "from_view", "into_vec", "into_box", "into_iter", "drop", "leak_borrow"}
 
 Enabled(st, op) == \/ st.phase \in {"none", "gone"} /\ st.handle.kind = "none" /\ op \in ConstructorOps
-                   \/ st.handle.kind # "none" /\ op \in DrainOps
+                   \/ st.handle.kind # "none" /\ op \in DrainOps \cup {"d_forget"}
                    \/ st.phase = "live" /\ st.handle.kind = "none" /\ op \in LiveOps
 
 Apply(st, op, a) == IF op \in ConstructorOps THEN ApplyCtor(st, op, a)
@@ -164,8 +167,12 @@ Proj(st) == [nc |-> NC(st.grid), nr |-> NR(st.grid), data |-> Flat(st.grid)]
 ShapeOKProj(p) == /\ p.nc * p.nr = p.len
                   /\ (p.nc = 0 <=> p.nr = 0)
                   /\ Len(p.data) = p.len
-PostFaultOK(pre, supplied, post) ==
-    /\ ShapeOKProj(post)
+\* `valued` = the element type carries a comparable value (FALSE for zero-sized elements, whose cells are
+\* only counted)
+PostFaultOKv(pre, supplied, post, valued) ==
+    /\ post.nc * post.nr = post.len /\ (post.nc = 0 <=> post.nr = 0)
     /\ post.dup = 0 /\ post.dead = 0
-    /\ \A i \in DOMAIN post.data : post.data[i] \in Range(pre) \cup Range(supplied)
+    /\ valued => /\ Len(post.data) = post.len
+                 /\ \A i \in DOMAIN post.data : post.data[i] \in Range(pre) \cup Range(supplied)
+PostFaultOK(pre, supplied, post) == PostFaultOKv(pre, supplied, post, TRUE)
 =============================================================================
